@@ -1510,6 +1510,17 @@ func (g *Gen) genC08(n int) error {
 				lo1, hi1 := g.randRange(terms)
 				lo2, hi2 := g.randRange(terms)
 				g.emit("q dictpair %s %s lo1=%s hi1=%s lo2=%s hi2=%s", seg, f, lo1, hi1, lo2, hi2)
+				// the counts reported above are sizes of postings lists: looked up through one recycled
+				// list - a term that is not in the dictionary, one that is, absent ones again (also in a
+				// field without a dictionary) - and compared with the enumeration just made
+				if len(terms) > 0 && i%3 == 0 {
+					pl := g.fresh("p")
+					g.emit("q post %s %s %s ex=nil fl=000 pl=%s ops=N", seg, f, hx(absentTerm()), pl)
+					g.emit("q post %s %s %s ex=nil fl=000 pl=%s ops=N,N", seg, f, hx([]byte(terms[len(terms)/2])), pl)
+					g.emit("q post %s %s %s ex=nil fl=000 ops=N", seg, f, hx(absentTerm()))
+					g.emit("q post %s nosuchfield %s ex=nil fl=000 ops=N", seg, hx([]byte(terms[0])))
+					g.emit("q dict %s %s aut=all lo=* hi=* probe=%s", seg, f, hxList(probe))
+				}
 			}
 		}
 		if depth == 0 {
